@@ -4,6 +4,7 @@ import NdonnxVerif.Driver.Scalar
 import NdonnxVerif.Driver.Reduce
 import NdonnxVerif.Driver.Layout
 import NdonnxVerif.Driver.Build
+import NdonnxVerif.Driver.Broadcast
 import NdonnxVerif.Driver.Index
 /-! Line-protocol driver: one request per line on stdin, one answer per line on stdout. -/
 open Ndx.Drv
@@ -13,6 +14,7 @@ def dispatch (line : String) : String :=
   | [] => "bad-op"
   | cmd :: args =>
     match cmd with
+    | "bshape" => cmdBshape args
     | "iface" => cmdIface args
     | "roll" => cmdRoll args
     | "flip" => cmdFlip args
